@@ -94,7 +94,7 @@ where
     /// ```
     #[must_use]
     pub fn new(backend: WR) -> Self {
-        check_tables(WR::Word::BITS + 1);
+        check_tables(WR::Word::BITS);
         Self {
             backend,
             buffer: BB::<WR>::ZERO,
